@@ -168,7 +168,7 @@ theorem create_delete_payload (cfg : HCfg) (r : ReqIn) (s : St) (v : JV)
   constructor <;> simp [act, h3, h4, svcEvent, emit, addAll]
 
 /-! ## the side condition of `all_conformant` is needed -/
-def cfgCE : HCfg := ⟨true, false, false, [], [], 0, .absent, .absent, .absent, .absent, .absent, 0⟩
+def cfgCE : HCfg := ⟨true, false, false, [], [], 0, .absent, .absent, .absent, .absent, .absent, 0, []⟩
 def reqCE : ReqIn := ⟨.access, [97], [], true, [], .empty, [99], false, none, none, []⟩
 
 /-- without `hc`, `all_conformant` fails: an access request with an empty payload but `cid = "c"`
